@@ -43,7 +43,10 @@ fn hist<A: Array<Item = u64> + Copy + Eq + Ord + Hash + serde::Serialize>(seq: &
     }
     let b = bases(&l);
     let canon: Lmer<A> = Lmer::from_slice(&b);
-    format!("{}|len={} bytes={} eqc={} hashc={}", tr.join(";"), l.len(), show_digits(&b), (l == canon) as u8, (h(&l) == h(&canon)) as u8)
+    // also: order against the canonical value, the `Debug` rendering (the letters) and the base iterator through its adaptors
+    let letters: String = b.iter().map(|x| debruijn::bits_to_base(*x)).collect();
+    format!("{}|len={} bytes={} eqc={} hashc={} cmpc={} dbg={} it={}", tr.join(";"), l.len(), show_digits(&b), (l == canon) as u8, (h(&l) == h(&canon)) as u8,
+        (l.cmp(&canon) == std::cmp::Ordering::Equal) as u8, (format!("{:?}", l) == letters) as u8, adaptors(|| l.iter(), |x| x.to_string()))
 }
 
 fn newl<A: Array<Item = u64> + Copy + Eq + Ord + Hash + serde::Serialize>(len: usize) -> String {
